@@ -50,6 +50,10 @@ CLAIMS = {
          "Decides the mechanism of reader concurrency safety for squashfs: guarded-by discipline of lru/lruBlock fields, Lock/Unlock pairing on all paths, only lru.mu -> block.mu nesting with nothing but list/map helpers under lru.mu, fetch closures re-enter no lock or cache, every store in the ~120 functions reachable from the reading API targets memory allocated on that path (except per-handle File fields and the lock-guarded cache), cache key = fetch offset and get returns only fetch output/cached data. From these, race freedom, termination and cache transparency follow by the argument in the evidence; no interleaving is executed.",
          "Assumes the backend's ReadAt and third-party decompressors are safe for concurrent use; freshness is decided per allocation site (no pointer analysis).",
          "DESIGN.md §4 C17"),
+ "C15": ("taint of device-derived values (go/ssa, field-based, interprocedural) x dominating-comparison guards x type width, plus CRC must-pass-through",
+         "Decides structural necessary conditions over the 26 functions reachable from partition.Read: every success return of the CRC-computing readers lies behind the CRC equality edge over the decoded bytes; every device-derived value reaching a make length, divisor, slice bound, index or the step of a slice-shrinking loop is bounded by a dominating comparison (directly, through its operands, through the validation at the store of the field it is loaded from, or - for lengths only - by a type of at most 16 bits). Loop counters compared with a device-derived bound inherit its taint. Does not prove termination or panic-freedom in general: untainted indices and arithmetic overflow inside guarded ranges are out of scope.",
+         "Taint is flow-insensitive across functions and field-based; a guard is a comparison with an untainted value or len() on the bounding edge - whether the constant is small enough is not judged.",
+         "DESIGN.md §4 C15"),
 }
 
 NOT_APPLICABLE = {
